@@ -144,6 +144,14 @@ struct Trigger(Arc<(Mutex<bool>, Condvar)>);
 
 impl Trigger {
     pub fn new() -> Self {
+        #[cfg(emit_rs_emit_verif)]
+        {
+            let trigger = Trigger(Arc::new((Mutex::new(false), Condvar::new())));
+            crate::verif::register_waiter(&trigger.0);
+            return trigger;
+        }
+
+        #[allow(unreachable_code)]
         Trigger(Arc::new((Mutex::new(false), Condvar::new())))
     }
 
